@@ -70,6 +70,35 @@ class VSlots:
         return 'VSlots#%d' % self.n
 
 
+class VList(list):
+    """A list of the application's own (a result set, a UserList-like class)."""
+
+
+class VDict(dict):
+    """A mapping of the application's own (a settings object, a JSON document class)."""
+
+
+class VTuple(tuple):
+    """A record type derived from tuple (what a namedtuple is)."""
+
+
+# the concrete class of a container node varies with its number: the builtin, a class of the standard library derived
+# from it (or behaving like it), an application class derived from it. Containers by any reading: element count as the
+# text, the elements as children.
+def new_list(n):
+    import collections
+    return (list, VList, collections.deque)[n % 3]()
+
+
+def new_dict(n):
+    import collections
+    return (dict, collections.OrderedDict, VDict, lambda: collections.defaultdict(int))[n % 4]()
+
+
+def new_tuple(n, items):
+    return (tuple, VTuple)[n % 2](items)
+
+
 MUTABLE = {'list', 'dict', 'obj', 'exc', 'proxy', 'sobj'}
 
 
@@ -109,9 +138,9 @@ def build(inst):
             want = max(1, inst['slen'][n - 1])
             b.objs[n] = ''.join((['q%d' % n] + ['\udc80', 'z'] * want)[:want + 1])
         elif k == 'list':
-            b.objs[n] = []
+            b.objs[n] = new_list(n)
         elif k == 'dict':
-            b.objs[n] = {}
+            b.objs[n] = new_dict(n)
         elif k == 'obj':
             b.objs[n] = VObj(n)
         elif k == 'proxy':
@@ -131,7 +160,7 @@ def build(inst):
         progress = False
         for n in list(todo):
             if all(c in b.objs for c in child[n - 1]):
-                b.objs[n] = tuple(b.objs[c] for c in child[n - 1])
+                b.objs[n] = new_tuple(n, [b.objs[c] for c in child[n - 1]])
                 todo.remove(n)
                 progress = True
     if todo:
